@@ -3,7 +3,14 @@
 usage: try_seed.py <dir with patch.diff demo.py meta.json> [--confirm] [--checks C01,C08] [--tier quick]
 --confirm : in a scratch worktree: baseline tests with the change (122 pass), demo exit 0 without / 1 with the change.
 --checks  : apply to /repo, run ./check for each, undo."""
-import json, os, subprocess, sys, tempfile, shutil, re
+import json, os, signal, subprocess, sys, tempfile, shutil, re
+
+
+def _term(signum, frame):
+    raise SystemExit(143)       # so that the `finally` blocks below put /repo back
+
+
+signal.signal(signal.SIGTERM, _term)
 
 def sh(cmd, **kw):
     r = subprocess.run(cmd, shell=True, capture_output=True, text=True, **kw)
